@@ -298,7 +298,9 @@ Definition pydir_sys (e : env) (sys : sysst) (pydir : option string) : sysst :=
   end.
 
 (** * Running: generated pipelines are  probe ; [sibling custom step] ; pype calls *)
-Record call := { c_name : string; c_opts : pype_opts }.
+(** [c_swallow]: the step sets [raiseError: false] — pype logs and swallows every error of the
+    child run (control-of-flow instructions excepted; none occur here) and the caller goes on *)
+Record call := { c_name : string; c_opts : pype_opts; c_swallow : bool }.
 
 Record pipe := {
   p_id : string;               (* marker written into the file: its own location *)
@@ -334,6 +336,15 @@ Definition find_module (e : env) (sp : list string) (m : string) : option string
 
 Definition PMNF : string := "pypyr.errors.PyModuleNotFoundError".
 
+(** pypyr.moduleloader.get_module: one plain import attempt against the CURRENT sys.path, every
+    time it is asked (nothing remembered about earlier failures); the harness canonicalises
+    the long error text to the name of the missing module *)
+Definition get_module (e : env) (sp : list string) (m : string) : res string :=
+  match find_module e sp m with
+  | Some mp => Ok mp
+  | None => Err PMNF m
+  end.
+
 Definition rec_t := state -> option string -> option string -> string -> pyparent
                     -> state * list event * status.
 
@@ -347,7 +358,11 @@ Fixpoint run_calls (rec : rec_t) (st : state) (info : pinfo) (calls : list call)
         rec st (child_loader info o) (o_pydir o) (c_name c) (child_parent info o) in
       match s1 with
       | SDone => let '(st2, ev2, s2) := run_calls rec st1 info r in (st2, (ev1 ++ ev2)%list, s2)
-      | _ => (st1, ev1, s1)
+      | SRaised _ _ =>
+          if c_swallow c
+          then let '(st2, ev2, s2) := run_calls rec st1 info r in (st2, (ev1 ++ ev2)%list, s2)
+          else (st1, ev1, s1)
+      | SUnsup => (st1, ev1, s1)
       end
   end.
 
@@ -378,9 +393,10 @@ Fixpoint run_pipeline (fuel : nat) (w : world) (st : state) (loader pydir : opti
                       let '(st3, ev, s) := run_calls (run_pipeline f w) st2 (d_info d) (p_calls p) in
                       (st3, (ev0 ++ ev)%list, s)
                   | Some m =>
-                      match find_module e (syspath (s_sys st2)) m with
-                      | None => (st2, ev0, SRaised PMNF m)
-                      | Some mp =>
+                      match get_module e (syspath (s_sys st2)) m with
+                      | Unsup => (st2, ev0, SUnsup)
+                      | Err n msg => (st2, ev0, SRaised n msg)
+                      | Ok mp =>
                           let '(st3, ev, s) :=
                             run_calls (run_pipeline f w) st2 (d_info d) (p_calls p) in
                           (st3, (ev0 ++ ["m"; mp] :: ev)%list, s)
@@ -428,9 +444,29 @@ Definition env_event (w : world) (repo : string) : event :=
 Definition state_pre (pre : list string) : state :=
   {| s_sys := {| known := []; syspath := pre |}; s_cache := [] |}.
 
-Definition run_case_pre (w : world) (repo : string) (pre : list string) (loader pydir : option string)
-           (name : string) : res (list event) :=
-  let '(st, ev, s) := run_pipeline FUEL w (state_pre pre) loader pydir name PNone in
+(** consecutive root runs in ONE process: sys.path, [_known_dirs] and the pipeline caches
+    persist; each run but the last leaves a marker with its outcome *)
+Definition invocation := (option string * option string * string)%type.   (* loader, py_dir, name *)
+
+Definition run_marker (s : status) : event :=
+  match s with SRaised n m => ["run-err"; n; m] | _ => ["run-ok"] end.
+
+Fixpoint run_roots (w : world) (st : state) (invs : list invocation) : state * list event * status :=
+  match invs with
+  | [] => (st, [], SDone)
+  | (l, pd, n) :: rest =>
+      let '(st1, ev1, s1) := run_pipeline FUEL w st l pd n PNone in
+      match rest, s1 with
+      | [], _ => (st1, ev1, s1)
+      | _, SUnsup => (st1, ev1, SUnsup)
+      | _, _ => let '(st2, ev2, s2) := run_roots w st1 rest in
+                (st2, (ev1 ++ run_marker s1 :: ev2)%list, s2)
+      end
+  end.
+
+Definition run_case_pre (w : world) (repo : string) (pre : list string) (invs : list invocation)
+  : res (list event) :=
+  let '(st, ev, s) := run_roots w (state_pre pre) invs in
   let tail := ["syspath" :: skipn (length pre) (syspath (s_sys st)); env_event w repo] in
   match s with
   | SUnsup => Unsup
@@ -439,18 +475,16 @@ Definition run_case_pre (w : world) (repo : string) (pre : list string) (loader 
   end.
 
 Definition run_case (w : world) (repo : string) (loader pydir : option string)
-           (name : string) : res (list event) := run_case_pre w repo [] loader pydir name.
+           (name : string) : res (list event) := run_case_pre w repo [] [(loader, pydir, name)].
 
 Definition obs_eqb : list event -> list event -> bool := list_eqb (list_eqb String.eqb).
 
-Definition check_case_pre (w : world) (repo : string) (pre : list string) (loader pydir : option string)
-           (name : string) (obs : list event) : nat :=
-  verdict obs_eqb (run_case_pre w repo pre loader pydir name) (Ok obs).
-
-Definition check_case (w : world) (repo : string) (loader pydir : option string)
-           (name : string) (obs : list event) : nat := check_case_pre w repo [] loader pydir name obs.
+Definition check_case_pre (w : world) (repo : string) (pre : list string) (invs : list invocation)
+           (obs : list event) : nat :=
+  verdict obs_eqb (run_case_pre w repo pre invs) (Ok obs).
 
 Definition mkopts l r p d : pype_opts :=
   {| o_loader := l; o_resolve := r; o_parent := p; o_pydir := d |}.
-Definition mkcall n o : call := {| c_name := n; c_opts := o |}.
+Definition mkcall n o : call := {| c_name := n; c_opts := o; c_swallow := false |}.
+Definition mkcall_sw n o : call := {| c_name := n; c_opts := o; c_swallow := true |}.
 Definition mkpipe i s m c : pipe := {| p_id := i; p_silent := s; p_mod := m; p_calls := c |}.
